@@ -7,3 +7,5 @@ import TjdLemmas.C06Lemmas
 import TjdLemmas.C12Lemmas
 import TjdLemmas.C13Lemmas
 import TjdLemmas.QPLemmas
+import TjdLemmas.FWLemmas
+import TjdLemmas.PCLemmas
